@@ -12,15 +12,18 @@ package main
 
 import (
 	"bufio"
+	"bytes"
 	"encoding/base64"
 	"encoding/json"
 	"fmt"
 	"hash/fnv"
+	"io"
 	"os"
 	"runtime"
 	"runtime/metrics"
 	"sort"
 	"strings"
+	"syscall"
 	"time"
 	"unicode/utf8"
 
@@ -116,6 +119,10 @@ type c09Out struct {
 var seenKinds = map[int]bool{}
 var watchdog = 2 * time.Second
 
+// hungNow: the watchdog fired. The goroutine that runs the front end cannot be stopped from inside, so after
+// the answer has been written the process replaces itself with a fresh image (see main).
+var hungNow bool
+
 func runC09(input string, echo bool) c09Out {
 	done := make(chan *feResult, 1)
 	a0 := allocBytes()
@@ -134,6 +141,7 @@ func runC09(input string, echo bool) c09Out {
 	switch {
 	case r == nil:
 		out.Res = "hang"
+		hungNow = true
 	case r.panicV != "":
 		out.Res, out.Panic, out.Sig, out.Frames, out.Ntok = "panic", r.panicV, r.sig, r.frames, r.ntok
 	case r.err != nil:
@@ -532,7 +540,70 @@ type c10Group struct {
 	key        string
 }
 
-func runC10(ts []tok, trail bool) (groups []*c10Group, n int, err error) {
+// evalC10 parses one text and reports what the parser made of it.
+func evalC10(text string) *c10Group {
+	done := make(chan *feResult, 1)
+	go guarded(text, done)
+	var r *feResult
+	t := time.NewTimer(watchdog)
+	select {
+	case r = <-done:
+		t.Stop()
+	case <-t.C:
+	}
+	g := &c10Group{Text: text}
+	switch {
+	case r == nil:
+		hungNow = true
+		g.Kind, g.Msg = "hang", "the front end did not return within the watchdog time"
+	case r.panicV != "":
+		g.Kind, g.Msg = "panic", r.panicV+" in "+r.sig
+	case r.err != nil:
+		g.Kind, g.Msg = "error", r.err.Error()
+	default:
+		g.Kind, g.Ast = "stmt", convStmt(r.stmt)
+	}
+	kb, _ := json.Marshal(g.Ast)
+	g.key = g.Kind + "|" + string(kb)
+	if g.Kind == "panic" {
+		g.key += g.Msg
+	}
+	return g
+}
+
+// grouper collects renderings by result, so that the answer carries each distinct result once
+type grouper struct {
+	byKey  map[string]*c10Group
+	groups []*c10Group
+	seen   map[string]bool
+	n      int
+	nlong  int // texts longer than the scanner's buffer
+}
+
+func newGrouper() *grouper { return &grouper{byKey: map[string]*c10Group{}, seen: map[string]bool{}} }
+
+func (gr *grouper) run(name, text string) {
+	if gr.seen[text] || hungNow {
+		return
+	}
+	gr.seen[text] = true
+	gr.n++
+	if len(text) > scanBuf {
+		gr.nlong++
+	}
+	g := evalC10(text)
+	if old, ok := gr.byKey[g.key]; ok {
+		if len(old.Renderings) < 4 {
+			old.Renderings = append(old.Renderings, name)
+		}
+		return
+	}
+	g.Renderings = []string{name}
+	gr.byKey[g.key] = g
+	gr.groups = append(gr.groups, g)
+}
+
+func runC10(ts []tok, trail, long bool) (groups []*c10Group, n, nlong int, err error) {
 	hasKw, hasLegacy := false, false
 	for _, t := range ts {
 		hasKw = hasKw || t.O == "kw"
@@ -561,51 +632,157 @@ func runC10(ts []tok, trail bool) (groups []*c10Group, n int, err error) {
 			vs = append(vs, variant{"kw=1,term=true,groupby-blank-separated", choose(ts, 1, true, false)})
 		}
 	}
-	seenText := map[string]bool{}
-	byKey := map[string]*c10Group{}
+	gr := newGrouper()
 	for _, v := range vs {
 		for cas := 0; cas < 3; cas++ {
 			for ws := 0; ws < 3; ws++ {
 				text, e := render(v.toks, cas, ws)
 				if e != nil {
-					return nil, n, e
+					return nil, gr.n, gr.nlong, e
 				}
-				if seenText[text] {
-					continue
-				}
-				seenText[text] = true
-				n++
-				done := make(chan *feResult, 1)
-				go guarded(text, done)
-				r := <-done
-				g := &c10Group{Text: text}
-				switch {
-				case r.panicV != "":
-					g.Kind, g.Msg = "panic", r.panicV+" in "+r.sig
-				case r.err != nil:
-					g.Kind, g.Msg = "error", r.err.Error()
-				default:
-					g.Kind, g.Ast = "stmt", convStmt(r.stmt)
-				}
-				kb, _ := json.Marshal(g.Ast)
-				g.key = g.Kind + "|" + string(kb)
-				if g.Kind == "panic" {
-					g.key += g.Msg
-				}
-				name := fmt.Sprintf("%s,case=%d,ws=%d", v.name, cas, ws)
-				if old, ok := byKey[g.key]; ok {
-					if len(old.Renderings) < 4 {
-						old.Renderings = append(old.Renderings, name)
-					}
-					continue
-				}
-				g.Renderings = []string{name}
-				byKey[g.key] = g
-				groups = append(groups, g)
+				gr.run(fmt.Sprintf("%s,case=%d,ws=%d", v.name, cas, ws), text)
 			}
 		}
 	}
-	return groups, n, nil
+	if long && !trail {
+		if e := longVariants(choose(ts, 0, true, true), gr); e != nil {
+			return nil, gr.n, gr.nlong, e
+		}
+	}
+	return gr.groups, gr.n, gr.nlong, nil
+}
+
+// ---------------------------------------------------------------- texts longer than the scanner's buffer
+
+const scanBuf = 1024 // sql/go_scanner.go bufLen: the source is read in pieces of this size
+
+func blanks(n int) string {
+	if n <= 0 {
+		return ""
+	}
+	b := make([]byte, n)
+	for i := range b {
+		b[i] = ' '
+		if i%61 == 60 {
+			b[i] = '\n'
+		}
+	}
+	return string(b)
+}
+
+func nonASCII(s string) bool {
+	for i := 0; i < len(s); i++ {
+		if s[i] >= 0x80 {
+			return true
+		}
+	}
+	return false
+}
+
+// longVariants: white space between tokens is insignificant, so the run of blanks in front of a literal or
+// identifier with non-ASCII characters is stretched until each of the token's bytes in turn lies on the
+// offsets around the first and the second refill of the scanner's source buffer.
+func longVariants(ts []tok, gr *grouper) error {
+	for k, t := range ts {
+		if !(t.T == "STR" || t.T == "QID" || t.T == "IDENT") || !nonASCII(t.V) {
+			continue
+		}
+		prefix, err := render(ts[:k], 0, 0)
+		if err != nil {
+			return err
+		}
+		rest, err := render(ts[k:], 0, 0)
+		if err != nil {
+			return err
+		}
+		lit, _ := tokText(t, 0)
+		m := len(lit)
+		for _, win := range [][2]int{{scanBuf - 4, scanBuf + 6}, {2*scanBuf - 4, 2*scanBuf + 4}} {
+			for at := win[0] - m + 1; at <= win[1]; at++ { // at = offset of the token's first byte
+				pad := at - len(prefix)
+				if pad < 1 {
+					continue
+				}
+				gr.run(fmt.Sprintf("long:token=%d,first-byte-at=%d", k, at), prefix+blanks(pad)+rest)
+			}
+		}
+	}
+	return nil
+}
+
+type namedInput struct{ name, text string }
+
+// paddedInputs (C09): the statement padded to every total length around one and two buffer sizes, and to
+// about 10 KB, by trailing blanks, a trailing comment, leading blanks, a long string literal, many VALUES
+// rows; and shifted by leading blanks so that each of its bytes in turn is the first byte of a refill.
+func paddedInputs(ts []tok) []namedInput {
+	full := choose(ts, 0, true, true)
+	base, err := render(full, 0, 0)
+	if err != nil {
+		return nil
+	}
+	var lens []int
+	for l := scanBuf - 9; l <= scanBuf+11; l++ {
+		lens = append(lens, l)
+	}
+	for l := 2*scanBuf - 8; l <= 2*scanBuf+12; l++ {
+		lens = append(lens, l)
+	}
+	lens = append(lens, 10*scanBuf+3)
+	strAt, valuesAt, lastOpen, lastClose := -1, -1, -1, -1
+	for i, t := range full {
+		if t.T == "STR" && strAt < 0 {
+			strAt = i
+		}
+		if t.T == "KW" && t.V == "VALUES" {
+			valuesAt = i
+		}
+		if t.T == "P" && t.V == "(" {
+			lastOpen = i
+		}
+		if t.T == "P" && t.V == ")" {
+			lastClose = i
+		}
+	}
+	var out []namedInput
+	for _, l := range lens {
+		d := l - len(base)
+		if d < 0 {
+			continue
+		}
+		out = append(out, namedInput{fmt.Sprintf("pad-trailing-blanks:%d", l), base + blanks(d)})
+		out = append(out, namedInput{fmt.Sprintf("pad-leading-blanks:%d", l), blanks(d) + base})
+		if d >= 5 {
+			out = append(out, namedInput{fmt.Sprintf("pad-block-comment:%d", l), base + " /*" + strings.Repeat("c", d-5) + "*/"})
+		}
+		if d >= 3 {
+			out = append(out, namedInput{fmt.Sprintf("pad-line-comment:%d", l), base + " //" + strings.Repeat("c", d-3)})
+		}
+		if strAt >= 0 {
+			cp := append([]tok{}, full...)
+			cp[strAt].V += strings.Repeat("x", d)
+			if text, e := render(cp, 0, 0); e == nil {
+				out = append(out, namedInput{fmt.Sprintf("pad-long-string:%d", l), text})
+			}
+		}
+		if valuesAt >= 0 && lastOpen > valuesAt && lastClose > lastOpen {
+			row, _ := render(full[lastOpen:lastClose+1], 0, 0)
+			head, _ := render(full[:lastClose+1], 0, 0)
+			tail, _ := render(full[lastClose+1:], 0, 0)
+			text := head
+			for len(text)+len(row)+3+len(tail)+1 <= l {
+				text += " , " + row
+			}
+			text += blanks(l-len(text)-len(tail)) + tail
+			out = append(out, namedInput{fmt.Sprintf("pad-many-rows:%d", l), text})
+		}
+	}
+	for _, edge := range []int{scanBuf, 2 * scanBuf} {
+		for j := 0; j <= len(base) && j < edge; j++ {
+			out = append(out, namedInput{fmt.Sprintf("shift:byte-%d-at-%d", j, edge), blanks(edge-j) + base})
+		}
+	}
+	return out
 }
 
 // ---------------------------------------------------------------- protocol
@@ -617,6 +794,9 @@ type request struct {
 	Trail bool   `json:"trail"`
 	Glue  bool   `json:"glue"` // c09: also the tokens written without any separator
 	Echo  bool   `json:"echo"`
+	Cuts  bool   `json:"cuts"` // c09: every byte-wise truncation of the rendered text
+	Pads  bool   `json:"pads"` // c09: the rendered text padded to lengths around the scanner's buffer size
+	Long  bool   `json:"long"` // c10: also renderings longer than the scanner's buffer (see longVariants)
 	ID    int    `json:"id"`
 }
 
@@ -634,11 +814,11 @@ func handle(req request) interface{} {
 		sort.Strings(names)
 		return obj{"ok": true, "kinds": kinds, "lex": names}
 	case "c10":
-		groups, n, err := runC10(req.Toks, req.Trail)
+		groups, n, nlong, err := runC10(req.Toks, req.Trail, req.Long)
 		if err != nil {
 			return obj{"ok": false, "err": err.Error()}
 		}
-		return obj{"ok": true, "n": n, "groups": groups, "id": req.ID}
+		return obj{"ok": true, "n": n, "nlong": nlong, "groups": groups, "id": req.ID}
 	case "c09":
 		var outs []c09Out
 		if req.Raw != "" || len(req.Toks) == 0 {
@@ -663,10 +843,52 @@ func handle(req request) interface{} {
 				o.Sep = map[int]string{0: "space", 3: "none"}[ws]
 				outs = append(outs, o)
 			}
+			if req.Cuts && !hungNow {
+				text, _ := render(choose(req.Toks, 0, false, true), 0, 0)
+				for i := 0; i < len(text) && !hungNow; i++ {
+					o := runC09(text[:i], false)
+					o.Sep = "bytecut"
+					outs = append(outs, o)
+				}
+			}
+			if req.Pads && !hungNow {
+				for _, pi := range paddedInputs(req.Toks) {
+					if hungNow {
+						break
+					}
+					o := runC09(pi.text, false)
+					o.Sep = pi.name
+					outs = append(outs, o)
+				}
+			}
 		}
 		return obj{"ok": true, "outs": outs, "id": req.ID}
 	}
 	return obj{"ok": false, "err": "unknown mode " + req.Mode}
+}
+
+// After a hang the process replaces itself with a fresh image (the spinning goroutine dies with the old
+// one). Requests already read from stdin but not yet executed travel in a file named by this variable.
+const leftoverEnv = "SQLFE_LEFTOVER"
+
+func restart(unread []byte) {
+	path := fmt.Sprintf("leftover-%d-%d", os.Getpid(), time.Now().UnixNano())
+	if err := os.WriteFile(path, unread, 0o600); err != nil {
+		os.Exit(3)
+	}
+	exe, err := os.Executable()
+	if err != nil {
+		os.Exit(3)
+	}
+	env := []string{}
+	for _, e := range os.Environ() {
+		if !strings.HasPrefix(e, leftoverEnv+"=") {
+			env = append(env, e)
+		}
+	}
+	env = append(env, leftoverEnv+"="+path)
+	syscall.Exec(exe, os.Args, env)
+	os.Exit(3)
 }
 
 func main() {
@@ -674,7 +896,14 @@ func main() {
 	if f, err := os.OpenFile(os.DevNull, os.O_WRONLY, 0); err == nil {
 		os.Stderr = f
 	}
-	in := bufio.NewReaderSize(os.Stdin, 1<<20)
+	var src io.Reader = os.Stdin
+	if path := os.Getenv(leftoverEnv); path != "" {
+		if b, err := os.ReadFile(path); err == nil {
+			src = io.MultiReader(bytes.NewReader(b), os.Stdin)
+		}
+		os.Remove(path)
+	}
+	in := bufio.NewReaderSize(src, 1<<20)
 	// Answers are written by their own goroutine: the caller writes a whole batch of requests before it
 	// reads any answer, so this loop must keep draining stdin even while stdout is not being read.
 	answers := make(chan []byte, 1<<16)
@@ -706,6 +935,12 @@ func main() {
 				b, _ = json.Marshal(obj{"ok": false, "err": "cannot encode result: " + e.Error()})
 			}
 			answers <- b
+			if hungNow {
+				close(answers)
+				<-written
+				unread, _ := in.Peek(in.Buffered())
+				restart(unread)
+			}
 		}
 		if err != nil {
 			break
